@@ -759,7 +759,7 @@ def _wequiv(task: tuple[dict[str, Any], int]) -> dict[str, Any]:
             kinds += ["ini-section", "toml-section", "inline"] + (["toml-str-section"] if isinstance(val, list) else [])
         for kind in kinds:
             o, f, c, t = run_source(wdir, kind, key, val, [], module, seed + n, tic)
-            runs.append((kind, key, o, f, c, t)); n += 1
+            runs.append((kind, "%s=%s" % (key, val) if isinstance(val, bool) else key, o, f, c, t)); n += 1
     out: dict[str, Any] = {"id": st["id"], "runs": n, "accepted": [], "rejected": [], "diff": [], "pairs": 0, "accept_diff": []}
     ok = []
     for src, sp, o, f, c, t in runs:
@@ -771,8 +771,9 @@ def _wequiv(task: tuple[dict[str, Any], int]) -> dict[str, Any]:
     # a spelling is either understood by every config-file format or by none
     for key, val in st["cfg"]:
         for grp in (("ini", "setupcfg", "toml", "toml-str"), ("ini-section", "toml-section", "toml-str-section", "inline")):
-            tried = [r[0] for r in runs if r[1] == key and r[0] in grp]
-            acc = [r[0] for r in ok if r[1] == key and r[0] in grp]
+            lab = "%s=%s" % (key, val) if isinstance(val, bool) else key
+            tried = [r[0] for r in runs if r[1] == lab and r[0] in grp]
+            acc = [r[0] for r in ok if r[1] == lab and r[0] in grp]
             if tried and acc and len(acc) != len(tried):
                 out["accept_diff"].append({"key": key, "accepted": acc, "rejected": [x for x in tried if x not in acc]})
     dest = st["dest"]
@@ -1084,15 +1085,21 @@ def main(argv: list[str]) -> int:
     pm_bool = [m for m in maps.values() if m["per_module"] and m["kind"] == "bool"]
     pm_bool_cmd = [m for m in pm_bool if m["has_cmd"]]
     enum = maps["follow_imports"]
-    if len(pm_bool) < 25 or len(pm_bool_cmd) < 20:
+    if len(pm_bool) < 25:
         raise MachineryError("option tables look wrong: %d per-module booleans" % len(pm_bool))
     inline2, inline3 = [UNSET, "p", "q"], [UNSET, "p", "q", "r"]
     nfmt = len(FORMATS)
 
+    def usable(om: dict[str, Any], rec: dict[str, Any]) -> bool:
+        return rec["c"] == UNSET or bool(om["cmd"].get(rec["c"]))
+
+    def fit(om: dict[str, Any], rec: dict[str, Any]) -> dict[str, Any]:
+        return om if usable(om, rec) else enum
+
     def pick_map(idx: int, rec: dict[str, Any]) -> dict[str, Any]:
         pool = pm_bool_cmd if rec["c"] != UNSET else pm_bool
         k = (idx * 7 + seed * 13) % (len(pool) + 3)
-        return enum if k >= len(pool) else pool[k]
+        return enum if k >= len(pool) else fit(pool[k], rec)
 
     items2: list[Any] = []
     items3: list[Any] = []
@@ -1147,15 +1154,11 @@ def main(argv: list[str]) -> int:
         rnd = random.Random(seed)
         btasks = []
         for i, rec in enumerate(small):
-            om = witness_maps[i % len(witness_maps)]
-            if rec["c"] != UNSET and not om["has_cmd"]:
-                om = witness_maps[0]
+            om = fit(witness_maps[i % len(witness_maps)], rec)
             btasks.append((i, rec, om, FORMATS[i % nfmt], seed * 31 + i, inline2))
         for i in range(1600 if thorough else 240):
             rec = rnd.choice(recs)
-            om = rnd.choice(witness_maps + [enum])
-            if rec["c"] != UNSET and not om["has_cmd"]:
-                om = witness_maps[0]
+            om = fit(rnd.choice(witness_maps + [enum]), rec)
             btasks.append((1000 + i, rec, om, rnd.choice(FORMATS), seed * 31 + 1000 + i, inline2))
         builds = build_evals = 0
         bbad: list[Any] = []
@@ -1193,8 +1196,10 @@ def main(argv: list[str]) -> int:
         for i in range(ncli):
             rec = small[(i * 37 + seed) % len(small)] if i % 2 == 0 else rnd.choice(recs)
             om = cli_maps[i % len(cli_maps)]
-            if rec["c"] != UNSET and not om["has_cmd"]:
+            if not usable(om, rec):
                 om = cli_maps[0]
+            if not usable(om, rec):
+                rec = small[0]
             ctasks.append((i, rec, om, FORMATS[i % nfmt], seed * 17 + i, inline2, root, cbase))
         cli_runs = cli_evals = 0
         cbad: list[Any] = []
@@ -1255,7 +1260,8 @@ def main(argv: list[str]) -> int:
                     "module %s: option %s is %r, the documented precedence gives %r (model of the code: %r); minimal configuration:\n%s%s"
                     % (vi["m"], detail.get("option_in_minimal_configuration", dest), detail.get("got"), detail.get("doc"),
                        detail.get("imp"), detail.get("config", ""),
-                       ("command line: %s\n" % detail.get("argv")) if detail.get("argv") else ""))
+                       (("command line: %s\n" % detail.get("argv")) if detail.get("argv") else "")
+                       + (("first line of the module: %s\n" % detail.get("inline")) if detail.get("inline") else "")))
 
     for ridx, dest, fmt, salt, r in sorted(bad, key=lambda b: (b[0], b[1], b[2], b[3])):
         drift += ["cfg %d (%s,%s): %s" % (ridx, dest, fmt, d) for d in r["drift"][:3]]
